@@ -34,7 +34,7 @@ CHECKS = {
    "simulated socket semantics (write after local shutdown = BrokenPipe, connect without listener = ConnectionRefused, both validated against Linux); a malformed reply may or may not be retried (the property leaves it open) but must not wedge the node.",
    "deterministic simulation: scripted fault sequences x seeded schedules, node-log oracle, recovery (liveness) check after faults stop"),
  "C09": ("exploration","3/C09",
-   "Real SVS producers of every kind (value, typed array, complex array, reader, writer; payload lengths on every chunk-boundary residue, chunk sizes 1..1000 bytes, channel depths 0..8, none/zstd) run on the real Server with the producer thread, the bounded channel, the connection thread and the puller all under seeded schedules (plus seeded sleeps inside reader/writer producers). A raw scripted client speaks /_svs/open, next, cancel and checks: concatenated chunks equal the producer's logical bytes (after an independent zstd decode), exactly one final marker on the final chunk, empty payload = one empty final chunk, next past the end / after cancel is an error, a producer failure surfaces as an error and never as an end marker; pull_to_vec, pull_value, pull_typed_slice, pull_complex_slice and pull_consume over the real Client, and their _async forms over the real AsyncClient (producer on the blocking Server) and the real WebSocketClient (producer on the WebSocketServer, /_svs/next off-reader; decoder on a simulated thread fed through tokio's bounded channel) must return exactly the original.",
+   "Real SVS producers of every kind (value, typed array, complex array, reader, writer; payload lengths on every chunk-boundary residue, chunk sizes 1..1000 bytes, channel depths 0..8, none/zstd) run on the real Server with the producer thread, the bounded channel, the connection thread and the puller all under seeded schedules (plus seeded sleeps inside reader/writer producers). A raw scripted client speaks /_svs/open, next, cancel and checks: concatenated chunks equal the producer's logical bytes (after an independent zstd decode), exactly one final marker on the final chunk, empty payload = one empty final chunk, next past the end / after cancel is an error, a producer failure surfaces as an error and never as an end marker; a cancel from a second connection that lands while a next is parked in a slow producer is final; the same raw protocol is spoken by a raw WebSocket peer to the WebSocketServer (next off-reader) with a cancel pipelined right behind a parked next on the same connection; pull_to_vec, pull_value, pull_typed_slice, pull_complex_slice and pull_consume over the real Client, and their _async forms over the real AsyncClient (producer on the blocking Server) and the real WebSocketClient (producer on the WebSocketServer, /_svs/next off-reader; decoder on a simulated thread fed through tokio's bounded channel) must return exactly the original.",
    "payloads up to 64 KiB.",
    "deterministic simulation: seeded producer/consumer schedules, stream-reassembly oracle"),
  "C10": ("fault_enumeration","3/C10",
